@@ -1,23 +1,7 @@
-"""Claim texts per property (what the check decides, at which level) and the not-yet-claimed list."""
-HOOK_COMMITS = ["1f65a66"]
+"""Claim texts live in tools/props.d/Cxx.json (key `claim`); this module only adds the bookkeeping."""
+from props import CLAIMS  # noqa: F401
 
-CLAIMS = {
-    "C06": {
-        "technique": "Lean 4 theorems (model = exact mathematical notation value, base64 inverse/strictness) + exhaustive/generated differential of the model against parse_scalars.rs/base64.rs via hooks",
-        "text": "Proof: Lean theorems parse_int_{signed,unsigned}_exact (all widths 1..128: result = exact value of the notation if it fits, error otherwise), never_wrapped_*, complete_*, bool/null tables exact, b64_decode_encode and b64_strict, for ALL strings; the model is tied to the code by a ~0.5M-case differential (all short strings over the digit/prefix alphabet, width boundaries in every radix, whitespace/sign/separator variants) and literal tables regenerated from the source.",
-        "note": "Trusted: Lean kernel; axioms propext/Classical.choice/Quot.sound; the hand model's correspondence is tested not proved; float text->value is core::str::parse (external, not modelled).",
-    },
-    "C07": {
-        "technique": "Lean 4 theorems (enforcer accepts iff independent counts within limits; report = counts; per-document independence) + differential of the enforcer and of the pump's budget integration against budget.rs/live_events.rs",
-        "text": "Proof: accepts_iff, report_eq_usage (incl. merge keys tracked by the container-state stack vs counted on the tree), ratio_exact, exact_limits_accept / below_usage_rejects (limit = usage accepts, anything below rejects), first_breach_kind (arbitrary event lists), perdoc_independent and perdoc_state_reset for the repaired per-document policy, for ALL streams of document trees; tied to the code by a differential over real parser event streams (limit = usage and usage-1 for each of 8 counters, ratio heuristic incl. saturating multipliers, both policies, synthetic unbalanced sequences) and by the pump differential in which replayed events are budgeted; Budget::default constants regenerated from source.",
-        "note": "Trusted: Lean kernel; axioms propext/Classical.choice/Quot.sound; hand model tied by testing; parser contract (events = flattened trees) assumed for the tree theorems; three defects found by this property were repaired by fix: commits (see known_findings.json).",
-    },
-    "C02": {
-        "technique": "Lean 4 refinement theorem (event pump with recording frames / inject stack = tree substitution `expand`) by mutual structural induction + differential of the pump model against LiveEvents + implementation-only expansion oracle",
-        "text": "Proof: pump_eq_expand_partial (for every document tree within the alias limits the pump delivers exactly the expansion: every alias replaced by a copy of the most recently completed node of that id; hypothesis: no folded scalar at column 0, a syntax rejection independent of anchors), pump_sound (for ALL limits a run that ends without error delivered exactly the expansion, so an alias without a completed anchor can never be accepted), pump_errors_classified_general, alias_unknown_is_error, anchor_mark_transparent (full, after the repair of the anchored-empty-quoted special case), inject_len_le_one, peek_next_coherent. Tie to code: event-by-event differential of the model against the real LiveEvents on the real parser's items (all delivered events with tag class, style, anchor id, both locations; terminating error with numbers and location; finish(); flags) + oracle value(aliased text) = value(expanded text) with name resolution done by the generator.",
-        "note": "Trusted: Lean kernel; axioms propext/Classical.choice/Quot.sound; hand model tied by testing; the parser's name->id resolution is external (exercised by the oracle). One defect found and repaired (fix: 3bd9a5e).",
-    },
-}
+HOOK_COMMITS = ["1f65a66"]
 
 _PENDING = "model and theorems not built yet in this round (planned, see DESIGN.md section 5); not claimed until its check exists"
 NOT_APPLICABLE = {f"C{i:02d}": _PENDING for i in range(1, 21)}
